@@ -13,10 +13,13 @@ def cfgs(ctx, for_prop='C02'):
     cvj(); cvj(masks=False, dmin=-2, dmax=0); cvj(method='ssd', ws=1, H=2, W=4); cvj(method='census', masks=False, H=3, W=5)
     cvj(grids=True, masks=False); cvj(ws=1, H=2, W=4, dmin=0, dmax=2); cvj(col0=3, masks=False)
     cvj(bands=['r', 'g'], band='g', masks=False, H=3, W=5)
+    cvj(bands=['r', 'g'], rbands=['g', 'r'], band='g', masks=False, H=3, W=5, method='census')     # band order differs between the images
+    cvj(bands=['r', 'g'], rbands=['g', 'r'], band='r', masks=False, H=3, W=4, dmin=0, dmax=1)
     cvj(lcodes=[0, 1], rcodes=[3, 2], ws=3, H=3, W=5, dmin=-1, dmax=0)      # the two images use different mask codes
     cvj(masks=False, W=5, H=3, dmin=-4, dmax=4)          # interval reaching the image width: every cost NaN there, no exception
+    cvj(dmin=-2, dmax=-1, masks=False); cvj(dmin=1, dmax=2, masks=False)      # strictly negative / strictly positive intervals
     if not ctx.quick:
-        cvj(method='census', ws=3, H=3, W=6, masks=True); cvj(method='census', ws=5, H=5, W=7, masks=False, dmin=0, dmax=1)
+        cvj(method='census', ws=3, H=3, W=6, masks=True); cvj(method='census', ws=5, H=5, W=6, masks=False, dmin=0, dmax=0)
         cvj(method='ssd', ws=3, H=3, W=6); cvj(ws=3, H=4, W=7, dmin=-3, dmax=3); cvj(ws=5, H=5, W=7, dmin=-1, dmax=1, masks=False)
         cvj(grids=True, masks=True, H=3, W=6, dmin=-2, dmax=2); cvj(method='census', grids=True, masks=False, H=3, W=6)
         cvj(col0=7, masks=True, dmin=1, dmax=2); cvj(dmin=-3, dmax=-1); cvj(dmin=1, dmax=3)
@@ -40,9 +43,11 @@ def main(ctx):
                 dict(method='sad', subpix=2, H=4, W=7, dmin=-3, dmax=3)]
     for kw in sub:
         J.append({'mod': MOD, 'fn': 'subpix_volume', 'mode': 'sym', 'args': dict(kw, cap=cap)})
-    # ZNCC: structure only (shape, type of measure, NaN pattern, finite elsewhere); the value is outside the claim
+    # ZNCC: structure for all images (shape, type of measure, NaN pattern, finite elsewhere); the value only at pinned image pairs; band selection relationally
     J.append({'mod': MOD, 'fn': 'zncc_volume', 'mode': 'sym', 'args': dict(H=3, W=4, dmin=-1, dmax=1, cap=cap)})
+    J.append({'mod': MOD, 'fn': 'zncc_bands', 'mode': 'sym', 'args': dict(H=3, W=4, dmin=-1, dmax=0, cap=cap)})
     if not ctx.quick:
+        J.append({'mod': MOD, 'fn': 'zncc_bands', 'mode': 'sym', 'args': dict(H=3, W=4, dmin=0, dmax=1, subpix=2, cap=cap)})
         J.append({'mod': MOD, 'fn': 'zncc_volume', 'mode': 'sym', 'args': dict(H=3, W=5, dmin=-2, dmax=1, cap=cap)})
     cexs = []
     for r in ctx.run_jobs(J, timeout=1200 if ctx.quick else 5400):
@@ -55,7 +60,7 @@ def main(ctx):
                               'masked, disparity outside the pixel interval); SAD, SSD, census; scalar intervals and per-pixel grids; band selection; '
                               'column coordinates not starting at 0; sub-pixel precision 2 and 4 (no masks): cost at k + i/subpix == measure against the right image '
                               'linearly interpolated between columns (scipy zoom order 1 = the linear map read off the real zoom on unit vectors)')
-    ctx.assumptions += ['C02: ZNCC: only shape, type of measure / maximal cost, NaN pattern and finiteness are decided (the value is a degree-6 polynomial identity with square roots that z3 does not decide within the caps)', 'C02: masks combined with sub-pixel precision, subpix > 4 and step != 1 are outside the harness']
+    ctx.assumptions += ['C02: ZNCC: for arbitrary images only shape, type of measure / maximal cost, NaN pattern, finiteness and band selection are decided; the VALUE (a degree-6 polynomial identity with square roots that z3 does not decide within the caps) is decided at 3 pinned image pairs per job only (ground queries, one pair with zero-variance windows)', 'C02: masks combined with sub-pixel precision, subpix > 4 and step != 1 are outside the harness']
 
 
 def replay(body):
